@@ -26,6 +26,10 @@ def oblivious(ctx, pw, cred):
                              (pw, b"", "empty credential id") if cred else (pw, b"q" * 400, "long credential id")):
         g = honest_flow(ctx, pw2, cred2, setup=f.setup, registration_only=True, count=True)
         ctx.expect(mk(g) != mk(f), "different %s gives an unrelated masking key" % what)
+    for pw2 in related_passwords(pw)[:12]:
+        g = honest_flow(ctx, pw2, cred, setup=f.setup, registration_only=True, count=True, stop_on_error=False)
+        if g.upload is not None:
+            ctx.expect(mk(g) != mk(f), "a related password (%d bytes) gives an unrelated masking key" % len(pw2))
     h = honest_flow(ctx, pw, cred, registration_only=True, count=True)       # another server seed
     ctx.expect(mk(h) != mk(f), "another server seed gives an unrelated masking key")
     # evaluation = function of (seed, credential id, request) only
@@ -49,7 +53,7 @@ def oblivious(ctx, pw, cred):
 
 def cases(tier, seed):
     out = []
-    shapes = [(b"password", b"alice"), (b"", b""), (b"p" * 300, b"a" * 255), (b"\x00", b"alice\x00")]
+    shapes = [(b"password", b"alice"), (b"", b""), (b"A long pass-phrase, longer than any hash block: " + b"correct horse battery staple " * 6, b"record/" * 40 + b"a"), (b"\x00", b"alice\x00")]
     for si, s in enumerate(suites_for(tier, seed)):
         for k, (pw, cred) in enumerate(shapes if tier == "thorough" else shapes[:3]):
             out.append(dict(script=oblivious, suite=s, seed=seed * 10000 + si * 10 + k, mode="pattern", params=dict(pw=pw, cred=cred)))
